@@ -7,13 +7,21 @@ programs, scheduled by an arbitrary `List Tid` (`(sys v progs).run sched`).  `Va
 order of the repaired code; the three flags re-create the lock orders of the code before the commits
 9a06d6d (`Writer`), c2706af (`WriteFile`) and a4ab55a (`copyDir`).
 
+The link to the SEQUENTIAL model of C01 (`Goat.MemFS.step`, `memfs_refines`) is `distinct_paths_commute`:
+operations on independent paths, in every interleaving of their critical sections, leave the heap that
+represents the tree the sequential model reaches in any order (`concurrent_mkdir_shared_parent`: the
+shared-ancestor creation race; `interleaving_refines_some_order_false`: on RELATED paths the operations
+are not linearisable).
+
 PARTIAL (DESIGN 3, C09): that the Go critical sections really are atomic (Go memory model; nothing
-outside the modelled sections races) is an assumption supported by the lock facts and the `-race`
-stress of the check, not a theorem.
+outside the modelled sections races) is an assumption supported by the lock facts (`Goat/Tie/C09.lean`)
+and the `-race` stress of the check, not a theorem.  Stream handles are not among the operations of
+`distinct_paths_commute`.
 -/
 import Goat.Proofs.MemFSConcDeadlock
 import Goat.Proofs.MemFSConcCommute
 import Goat.Proofs.MemFSConcFile
+import Goat.Proofs.MemFSConcFinal
 
 namespace Goat.C09
 open Goat.MemFSConc Goat.LTS
@@ -34,8 +42,8 @@ theorem dir_inv (v : Variant) (progs : List (List Op)) (sched : List Tid) :
 
 -- a run with three threads creating, copying and removing in the root; the root ends with 3 nodes
 set_option maxRecDepth 8000 in
-example : (getDir ((sys .fixed [[.writeFile ["a"] [1], .copy ["a"] ["c"]], [.mkdirAll ["b", "x"]],
-      [.writeFile ["a"] [2], .remove ["zz"]]]).run
+example : (getDir ((sys .fixed [[.writeFile [[97]] [1], .copy [[97]] [[99]]], [.mkdirAll [[98], [120]]],
+      [.writeFile [[97]] [2], .remove [[122, 122]]]]).run
       ([0,1,2,0,1,2,0,1,2,0,1,2,0,1,2,0,1,2,0,1,2,0,0,0,0,0,0,0,0,0,0,2,2,2,2])).heap 0).map (·.nodes.length)
     = some 3 := by decide
 
@@ -57,13 +65,13 @@ theorem create_once {n : Name} (tr : List DAct) {d : DirObj} (hinv : DirInv d)
   create_once_trace tr hinv hnew hno hany
 
 -- two `mkdir x` and one `addNode x` race (with unrelated actions around them): one winner
-example : ((({} : DirObj).runTrace [.lookup "x", .mkdir "x" 5, .add "y" 6, .add "x" 7, .mkdir "x" 9, .remove "y"]).2
+example : ((({} : DirObj).runTrace [.lookup [120], .mkdir [120] 5, .add [121] 6, .add [120] 7, .mkdir [120] 9, .remove [121]]).2
     = [.found none, .created 5, .created 6, .refused, .existing 5, .removed]) := by decide
 
 /-- the same at the level of the thread system: two threads racing `MkdirAll("x")` through the gap
 between the optimistic lookup and the locked re-check (schedule 0,0,1,1 parks both in the gap) end
 with one node and both succeed -/
-example : let s := (sys .fixed [[.mkdirAll ["x"]], [.mkdirAll ["x"]]]).run [0,0,1,1,0,1,0,1,0,1]
+example : let s := (sys .fixed [[.mkdirAll [[120]]], [.mkdirAll [[120]]]]).run [0,0,1,1,0,1,0,1,0,1]
     ((getDir s.heap 0).map (·.nodes.length) = some 1 ∧ s.log.map (·.2) = [.ok, .ok]) := by decide
 
 /-! ## file_values -/
@@ -114,8 +122,8 @@ example : FileRun { data := [], lock := some 3, committed := [[9]] }
 -- a writer streams "ab" in two chunks while a reader polls: the reader sees the old or the new value,
 -- never the truncated or half-written one (here: blocked until Close, then the new value)
 set_option maxRecDepth 8000 in
-example : let s := (sys .fixed [[.writeFile ["f"] [9], .openW 1 ["f"], .hwrite 1 [1], .hwrite 1 [2], .close 1],
-      [.readFile ["f"]]]).run (List.replicate 18 0 ++ [1,1,1,1] ++ List.replicate 12 0 ++ [1,1,1])
+example : let s := (sys .fixed [[.writeFile [[102]] [9], .openW 1 [[102]], .hwrite 1 [1], .hwrite 1 [2], .close 1],
+      [.readFile [[102]]]]).run (List.replicate 18 0 ++ [1,1,1,1] ++ List.replicate 12 0 ++ [1,1,1])
     resultsOf s 1 = [.data [1, 2]] := by decide
 
 /-! ## no_deadlock -/
@@ -135,7 +143,7 @@ theorem no_deadlock (progs : List (List Op)) (sched : List Tid)
 
 -- the hypotheses are satisfiable in a state where a handle is held and the other thread waits for it
 set_option maxRecDepth 8000 in
-example : let s := (sys .fixed (wit_progs (.openW 1 ["d", "f"]))).run (List.replicate 9 0 ++ List.replicate 10 1)
+example : let s := (sys .fixed (wit_progs (.openW 1 [[100], [102]]))).run (List.replicate 9 0 ++ List.replicate 10 1)
     (orderedB .fixed s && noLeakB s && unfinished s 0 && unfinished s 1 && lockedBy s.heap 0 2) = true := by
   decide
 
@@ -159,41 +167,307 @@ holds a writer on d/f and calls `WriteFile("d/g")`, thread 1 opens a writer on d
 discipline is respected. -/
 theorem writer_under_dirlock_deadlocks :
     ∃ progs sched, Deadlock { writerUnderDir := true } progs sched :=
-  ⟨wit_progs (.openW 1 ["d", "f"]), wit_sched, deadlock_of_deadlockB (by decide)⟩
+  ⟨wit_progs (.openW 1 [[100], [102]]), wit_sched, deadlock_of_deadlockB (by decide)⟩
 
 /-- pre-c2706af: `WriteFile` on an existing file calls `setData` while holding the directory lock. -/
 theorem writefile_under_dirlock_deadlocks :
     ∃ progs sched, Deadlock { writeFileUnderDir := true } progs sched :=
-  ⟨wit_progs (.writeFile ["d", "f"] [2]), wit_sched, deadlock_of_deadlockB (by decide)⟩
+  ⟨wit_progs (.writeFile [[100], [102]] [2]), wit_sched, deadlock_of_deadlockB (by decide)⟩
 
 /-- pre-a4ab55a: `copyDir` keeps the source directory's `mu.RLock` while it waits for a child file. -/
 theorem copydir_holds_mu_deadlocks :
     ∃ progs sched, Deadlock { copyDirHoldsMu := true } progs sched :=
-  ⟨wit_progs (.copy ["d"] ["e"]), wit_sched, deadlock_of_deadlockB (by decide)⟩
+  ⟨wit_progs (.copy [[100]] [[101]]), wit_sched, deadlock_of_deadlockB (by decide)⟩
 
 -- the same three schedules are harmless in the repaired lock order
-example : (deadlockB .fixed (wit_progs (.openW 1 ["d", "f"])) wit_sched ||
-    deadlockB .fixed (wit_progs (.writeFile ["d", "f"] [2])) wit_sched ||
-    deadlockB .fixed (wit_progs (.copy ["d"] ["e"])) wit_sched) = false := by decide
+example : (deadlockB .fixed (wit_progs (.openW 1 [[100], [102]])) wit_sched ||
+    deadlockB .fixed (wit_progs (.writeFile [[100], [102]] [2])) wit_sched ||
+    deadlockB .fixed (wit_progs (.copy [[100]] [[101]])) wit_sched) = false := by decide
 
 /-! ## distinct_paths_commute -/
 
 /-
-Full statement (DESIGN): for every configuration whose operations have pairwise unrelated paths and all
-succeed, the tree reachable from the root in the final state of EVERY schedule equals the sequential
-application of the operations in any order.
-
-Proved part: the statement for the path-map semantics of the critical sections.  Seen from the root
-every heap-mutating critical section is one micro effect (`ensureDir p` = locked part of `mkdir`,
-`graft p sub` = `addNode` / `setData` / handle close / `removeNodeByName` at `p`), an operation with
-target `p` is `ensureDir` on the proper prefixes of `p` followed by its effect at `p`, and an
-interleaving of operations is an interleaving (here even: any permutation) of their micro effects.
-Missing: the refinement lemma "in a forest-shaped heap the critical section on the directory object
-reached by walking π is the micro effect at π/name" (needs a heap-shape invariant: every object has at
-most one parent entry).  The check covers this link on every run instead: the history monitor compares
-the final tree of the real filespace with the union of the successful operations.
+Vocabulary (`Goat/Proofs/MemFSConc{Shape,Ops,SimDefs,Seq,Final}.lean`):
+  `Shape h`          the heap is a forest: every directory object consistent, the root a directory, every
+                     child allocated, every object has at most one parent entry
+  `absT h`           the abstract tree of the heap: `Path → Option Entry` (the `FS.State` of the specification)
+  `startState h0 progs`   the threads, none of them started, on the heap `h0` (`init progs` for the empty heap)
+  `seqRun t0 σ`      the SEQUENTIAL MODEL `Goat.MemFS.step` (property C01) run over the operations `σ`, one
+                     call after the other (`toFS`: the operation as a call with `/`-joined path strings)
+  `abs t`            C01's abstraction of the sequential model's tree
+  `Op.fine`          a supported operation (MkdirAll, WriteFile, ReadFile, ReadDir, IsExist/IsFile/IsDir,
+                     Remove, RemoveAll, Copy of a file or of a whole directory tree) on non-empty reduced
+                     paths; a copy's source and destination unrelated.  Stream handles (`Writer`/`Reader`)
+                     hold a file's lock ACROSS operations: they are the subject of `file_values` and
+                     `no_deadlock`, not of this theorem
+  `IndepOp a b`      nothing of `b` lies at or below a path `a` replaces (`WriteFile`/`Remove`/`RemoveAll`
+                     target, `Copy` destination), `a` replaces nothing at or above a path `b` reads (a read's
+                     path, a copy's source) or replaces, `a` reads
+                     nothing on the way `b` creates directories along; creating operations may share
+                     ancestors (`indepOp_of_unrelated`: operations on pairwise unrelated paths are independent)
 -/
-theorem distinct_paths_commute_partial (ops : List AOp)
+
+/-- DISTINCT PATHS COMMUTE, at the level of the heap.  Any number of threads, each running any program
+of supported operations, all operations pairwise independent (in particular: on pairwise unrelated
+paths), started on any forest-shaped heap `h0` that represents a tree `t0` of the sequential model.
+After EVERY schedule of their lock-granular actions that lets all threads finish, and for EVERY order `σ`
+of all the operations:
+ (1) the abstract tree of the final heap is the tree of the sequential model after `σ` — so it does not
+     depend on the interleaving, nor on the order;
+ (2) every thread has one result per operation, and it is the result the same operation has in the
+     sequential run (for `ReadDir`: a listing with the same entries);
+ (3) through C01: the final abstract tree and the results are a run of the specification `FS.Step`,
+     call by call, in the order `σ`;
+ (4) the final heap is again a forest and the sequential tree well formed: the next batch can start there. -/
+theorem distinct_paths_commute
+    {h0 : Heap} (hsh : Shape h0) {t0 : Node} (ht0 : MemFS.Inv t0) (habs : absT h0 = abs t0)
+    {progs : List (List Op)} (hok : ∀ P ∈ progs, ∀ op ∈ P, op.fine)
+    (hind : progs.flatten.Pairwise IndepOp) (sched : List Tid)
+    (hfin : ∀ t, unfinished ((sys .fixed progs).runFrom (startState h0 progs) sched) t = false)
+    (σ : List Op) (hσ : σ.Perm progs.flatten) :
+    abs (seqRun t0 σ).1 = absT ((sys .fixed progs).runFrom (startState h0 progs) sched).heap ∧
+    (∀ τ P, progs[τ]? = some P →
+      (resultsOf ((sys .fixed progs).runFrom (startState h0 progs) sched) τ).length = P.length ∧
+      ∀ (k : Nat) op r, P[k]? = some op →
+        (resultsOf ((sys .fixed progs).runFrom (startState h0 progs) sched) τ)[k]? = some r →
+        ∀ (j : Nat) r', σ[j]? = some op → (seqRun t0 σ).2[j]? = some r' →
+          ((∀ p, op ≠ .readDir p) → r' = resFS r) ∧
+          (∀ p, op = .readDir p → ∃ r'', r' = resFS r'' ∧ ((r = .err ∧ r'' = .err) ∨
+            ∃ l l', r = .list l ∧ r'' = .list l' ∧ FS.IsListing (absT h0) p l ∧ FS.IsListing (absT h0) p l' ∧
+              ∀ x, x ∈ l ↔ x ∈ l'))) ∧
+    FS.Run [[]] (abs t0) (σ.map fun op => (0, toFS op)) (seqRun t0 σ).2
+      (absT ((sys .fixed progs).runFrom (startState h0 progs) sched).heap) ∧
+    Shape ((sys .fixed progs).runFrom (startState h0 progs) sched).heap ∧ MemFS.Inv (seqRun t0 σ).1 := by
+  obtain ⟨h1, h2, h3, h4, h5, h6⟩ := commute_core hsh ht0 habs hok hind sched hfin σ hσ
+  have hσok : ∀ op ∈ σ, op.ok := by
+    intro op hop
+    have := hσ.subset hop
+    rw [List.mem_flatten] at this
+    obtain ⟨P, hP, hopP⟩ := this
+    exact (hok P hP op hopP).1
+  refine ⟨h1, ?_, ?_, h6, h5⟩
+  · intro τ P hP
+    refine ⟨(h2 τ P hP).1, ?_⟩
+    intro k op r hk hr j r' hj hr'
+    have hc := (h2 τ P hP).2 k op r hk hr
+    obtain ⟨r'', he, hs⟩ := h4 j op r' hj hr'
+    constructor
+    · intro hnl; rw [he, resOK_det hs hc hnl]
+    · rintro p rfl
+      refine ⟨r'', he, ?_⟩
+      rcases resOK_listing hc hs with h | h
+      · exact Or.inl h
+      · exact Or.inr h
+  · rw [← h1]; exact seqRun_run σ hσok t0 ht0
+
+/-- The same for operations on pairwise UNRELATED paths (none an ancestor of another; a `Copy` names two). -/
+theorem distinct_paths_commute_unrelated
+    {h0 : Heap} (hsh : Shape h0) {t0 : Node} (ht0 : MemFS.Inv t0) (habs : absT h0 = abs t0)
+    {progs : List (List Op)} (hok : ∀ P ∈ progs, ∀ op ∈ P, op.fine)
+    (hun : progs.flatten.Pairwise fun a b => ∀ x ∈ a.mains, ∀ y ∈ b.mains, ¬ x <+: y ∧ ¬ y <+: x)
+    (sched : List Tid)
+    (hfin : ∀ t, unfinished ((sys .fixed progs).runFrom (startState h0 progs) sched) t = false)
+    (σ : List Op) (hσ : σ.Perm progs.flatten) :
+    abs (seqRun t0 σ).1 = absT ((sys .fixed progs).runFrom (startState h0 progs) sched).heap :=
+  (distinct_paths_commute hsh ht0 habs hok (hun.imp (fun h => indepOp_of_unrelated h)) sched hfin σ hσ).1
+
+/-- …and such a batch NEVER GETS STUCK: started on a heap without held locks (`NoLocks`), in every state
+of every schedule, if some thread has not finished then some thread can take a step.  (No handle
+discipline is needed here: the operations of a batch hold no stream handle, every file stays unlocked.) -/
+theorem distinct_paths_progress {h0 : Heap} (hsh : Shape h0) (hq : NoLocks h0) {progs : List (List Op)}
+    (hok : ∀ P ∈ progs, ∀ op ∈ P, op.ok) (hind : progs.flatten.Pairwise IndepOp) (sched : List Tid)
+    (hun : ∃ t, unfinished ((sys .fixed progs).runFrom (startState h0 progs) sched) t = true) :
+    ∃ t, (step .fixed ((sys .fixed progs).runFrom (startState h0 progs) sched) t).isSome = true :=
+  progress_core hsh hq hok hind sched hun
+
+example : NoLocks [Obj.dir {}] := noLocks_init
+-- two writers of sibling files in one directory: 1 waits for the directory's outer lock that 0 holds
+set_option maxRecDepth 8000 in
+example : let progs : List (List Op) := [[.writeFile [[100], [120]] [1]], [.writeFile [[100], [121]] [2]]]
+    let s := (sys .fixed progs).runFrom (startState [Obj.dir {}] progs) ([0, 0, 0, 0, 0] ++ [1, 1, 1, 1])
+    unfinished s 1 = true ∧ (step .fixed s 1).isSome = false ∧ (step .fixed s 0).isSome = true := by decide
+
+-- WriteFile(a/b/x), MkdirAll(a/c), WriteFile(d) then ReadFile(e): three threads from the empty filespace.
+-- The hypotheses hold (shape, representation, supported operations, unrelated paths, a finishing schedule):
+example : Shape [Obj.dir {}] ∧ MemFS.Inv Node.empty ∧ absT [Obj.dir {}] = abs Node.empty :=
+  ⟨shape_init, MemFS.inv_empty, absT_init⟩
+example : let progs : List (List Op) := [[.writeFile [[97], [98], [120]] [1]], [.mkdirAll [[97], [99]]],
+      [.writeFile [[100]] [2], .readFile [[101]]]]
+    (∀ P ∈ progs, ∀ op ∈ P, op.fine) ∧
+    (progs.flatten.Pairwise fun a b => ∀ x ∈ a.mains, ∀ y ∈ b.mains, ¬ x <+: y ∧ ¬ y <+: x) := by
+  constructor
+  · simp [Op.fine, Op.ok, Op.reduced, Op.mains, Path.Reduced]; decide
+  · simp [Op.mains]
+set_option maxRecDepth 8000 in
+example : ∀ t, unfinished ((sys .fixed [[.writeFile [[97], [98], [120]] [1]], [.mkdirAll [[97], [99]]],
+      [.writeFile [[100]] [2], .readFile [[101]]]]).runFrom (startState [Obj.dir {}]
+        [[.writeFile [[97], [98], [120]] [1]], [.mkdirAll [[97], [99]]], [.writeFile [[100]] [2], .readFile [[101]]]])
+      (List.replicate 5 0 ++ List.replicate 8 1 ++ List.replicate 12 2 ++ List.replicate 7 0)) t = false := by
+  intro t
+  match t with
+  | 0 => decide
+  | 1 => decide
+  | 2 => decide
+  | n + 3 => rfl
+-- and a second batch started on the heap the first one left (conclusion (4) are the hypotheses again):
+-- Remove(d) ‖ ReadDir(a) on a non-empty initial tree
+set_option maxRecDepth 8000 in
+example : let progs1 : List (List Op) := [[.writeFile [[97], [98]] [1]], [.writeFile [[100]] [2]]]
+    let s1 := (sys .fixed progs1).runFrom (startState [Obj.dir {}] progs1) (List.replicate 10 0 ++ List.replicate 8 1)
+    let progs2 : List (List Op) := [[.remove [[100]]], [.readDir [[97]]]]
+    let s2 := (sys .fixed progs2).runFrom (startState s1.heap progs2) (List.replicate 8 0 ++ List.replicate 8 1)
+    (∀ t, unfinished s2 t = false) ∧ resultsOf s2 0 = [.ok] ∧ resultsOf s2 1 = [.list [([98], false)]] := by
+  refine ⟨?_, by decide, by decide⟩
+  intro t
+  match t with
+  | 0 => decide
+  | 1 => decide
+  | n + 2 => rfl
+
+-- a directory copy next to a writer and a remover: batch 1 builds a/x, a/s/y, d; batch 2 runs
+-- Copy(a → c) ‖ WriteFile(e/f) ‖ Remove(d), interleaved one critical section at a time
+set_option maxRecDepth 16000 in
+example : let progs1 : List (List Op) := [[.writeFile [[97], [120]] [1], .writeFile [[97], [115], [121]] [2]],
+      [.writeFile [[100]] [3]]]
+    let s1 := (sys .fixed progs1).runFrom (startState [Obj.dir {}] progs1) (List.replicate 24 0 ++ List.replicate 8 1)
+    let progs2 : List (List Op) := [[.copy [[97]] [[99]]], [.writeFile [[101], [102]] [4]], [.remove [[100]]]]
+    let s2 := (sys .fixed progs2).runFrom (startState s1.heap progs2)
+      ((List.replicate 14 [0, 1, 2]).flatten ++ List.replicate 10 0)
+    (∀ P ∈ progs2, ∀ op ∈ P, op.fine) ∧
+    (progs2.flatten.Pairwise fun a b => ∀ x ∈ a.mains, ∀ y ∈ b.mains, ¬ x <+: y ∧ ¬ y <+: x) ∧
+    (∀ t, unfinished s2 t = false) ∧ resultsOf s2 0 = [.ok] ∧
+    absT s2.heap [[99], [115], [121]] = some (.file [2]) ∧ absT s2.heap [[100]] = none := by
+  refine ⟨?_, ?_, ?_, by decide, by decide, by decide⟩
+  · simp [Op.fine, Op.ok, Op.reduced, Op.mains, Path.Reduced]; decide
+  · simp [Op.mains]
+  · intro t
+    match t with
+    | 0 => decide
+    | 1 => decide
+    | 2 => decide
+    | n + 3 => rfl
+
+/-! ## concurrent_mkdir_shared_parent -/
+
+/-- THE SHARED-ANCESTOR CREATION RACE.  Any number of threads, each running `MkdirAll` / `WriteFile`
+operations below a common ancestor path `a` that is missing (with no file on the way to it), pairwise
+independent (leaves unrelated; several `MkdirAll` of the same path allowed).  After every schedule that
+lets all threads finish: NOBODY FAILS, the ancestor chain exists (every prefix of `a` is a directory),
+every leaf exists (every prefix of a `MkdirAll` path is a directory, every written file holds its value),
+and the heap is a forest with consistent directories — each name of the chain was created exactly once
+(`create_once` is the statement for one directory object). -/
+theorem concurrent_mkdir_shared_parent {h0 : Heap} (hsh : Shape h0) {a : Path} {progs : List (List Op)}
+    (hops : ∀ P ∈ progs, ∀ op ∈ P, op.below a) (hsome : ∃ P ∈ progs, P ≠ [])
+    (hmiss : absT h0 a = none) (hnf : FS.mkdirOk (absT h0) a)
+    (hind : progs.flatten.Pairwise IndepOp) (sched : List Tid)
+    (hfin : ∀ t, unfinished ((sys .fixed progs).runFrom (startState h0 progs) sched) t = false) :
+    (∀ τ P, progs[τ]? = some P →
+      resultsOf ((sys .fixed progs).runFrom (startState h0 progs) sched) τ = P.map fun _ => Res.ok) ∧
+    (∀ q, q <+: a → absT ((sys .fixed progs).runFrom (startState h0 progs) sched).heap q = some .dir) ∧
+    (∀ P ∈ progs, ∀ op ∈ P,
+      (∀ p, op = .mkdirAll p → ∀ q, q <+: p →
+        absT ((sys .fixed progs).runFrom (startState h0 progs) sched).heap q = some .dir) ∧
+      (∀ p v, op = .writeFile p v →
+        absT ((sys .fixed progs).runFrom (startState h0 progs) sched).heap p = some (.file v))) ∧
+    Shape ((sys .fixed progs).runFrom (startState h0 progs) sched).heap :=
+  created_core hsh hops hsome hmiss hnf hind sched hfin
+
+-- three threads below the missing ancestor a/b: MkdirAll(a/b/x), MkdirAll(a/b/x) again, WriteFile(a/b/y/f);
+-- all three parked in the gap of `mkdir a` (schedule 0,0 1,1 2,2), then released in the order 2,1,0
+example : let a : Path := [[97], [98]]
+    let progs : List (List Op) := [[.mkdirAll (a ++ [[120]])], [.mkdirAll (a ++ [[120]])], [.writeFile (a ++ [[121], [102]]) [7]]]
+    (∀ P ∈ progs, ∀ op ∈ P, op.below a) ∧ progs.flatten.Pairwise IndepOp ∧ absT [Obj.dir {}] a = none ∧
+    FS.mkdirOk (absT [Obj.dir {}]) a := by
+  refine ⟨?_, ?_, by decide, ?_⟩
+  · simp only [List.mem_cons, List.not_mem_nil, or_false, forall_eq_or_imp, forall_eq]
+    exact ⟨Or.inl ⟨[[120]], by simp, rfl⟩, Or.inl ⟨[[120]], by simp, rfl⟩, Or.inr ⟨[[121], [102]], [7], by simp, rfl⟩⟩
+  · simp [IndepOp, Op.W, Op.C, Op.R, Op.paths, Op.owned]
+  · intro q hq d
+    rw [absT_init]
+    have : q = [] ∨ q = [[97]] ∨ q = [[97], [98]] := by
+      obtain ⟨r, hr⟩ := hq
+      match q, hr with
+      | [], _ => exact Or.inl rfl
+      | [x], h => simp at h; exact Or.inr (Or.inl (by rw [h.1]))
+      | [x, y], h => simp at h; exact Or.inr (Or.inr (by rw [h.1, h.2.1]))
+      | x :: y :: z :: w, h => simp at h
+    rcases this with rfl | rfl | rfl <;> simp [abs, Node.lookup, Node.empty, Kids.find, Node.entry]
+set_option maxRecDepth 8000 in
+example : let progs : List (List Op) := [[.mkdirAll [[97], [98], [120]]], [.mkdirAll [[97], [98], [120]]],
+      [.writeFile [[97], [98], [121], [102]] [7]]]
+    let s := (sys .fixed progs).runFrom (startState [Obj.dir {}] progs)
+      ([0, 0, 1, 1, 2, 2] ++ List.replicate 20 2 ++ List.replicate 12 1 ++ List.replicate 12 0)
+    (∀ t, unfinished s t = false) ∧ (getDir s.heap 0).map (·.nodes.length) = some 1 := by
+  refine ⟨?_, by decide⟩
+  intro t
+  match t with
+  | 0 => decide
+  | 1 => decide
+  | 2 => decide
+  | n + 3 => rfl
+
+/-! ## interleaving_refines_some_order — false for operations on RELATED paths -/
+
+/-
+Full statement asked for: for operations on related paths, every interleaving's results and final tree
+are those of SOME sequential order of the operations (linearisability at operation granularity).
+It is FALSE for the code, already for two threads with one operation each:
+    thread 0: WriteFile("a/b/f", v)        thread 1: Remove("a/b")        (empty filespace)
+  schedule: 0 creates a and a/b and parks before taking a/b's outer lock; 1 looks a/b up (a directory),
+  reads its length (0), and parks before `removeNodeByName`; 0 adds f to a/b and returns ok; 1 removes a/b
+  and returns ok.  Both calls succeed, the final tree is {a}: the file just written is gone and `Remove`
+  has removed a non-empty directory.  Sequentially one of the two calls fails in either order
+  (`Remove` of a missing path / of a non-empty directory).
+The atomicity that is missing: `Remove`'s emptiness test (`lastDir.Size()`, under the lock of a/b) and its
+`removeNodeByName` (under the lock of a) are two critical sections of two different directories, and
+`WriteFile`'s `mkdirAllNodes` and `addNode` are separate critical sections as well; no lock covers the path.
+The property only claims operations on DISTINCT paths (`distinct_paths_commute`).
+-/
+set_option maxRecDepth 8000 in
+theorem interleaving_refines_some_order_false :
+    ∃ (progs : List (List Op)) (sched : List Tid),
+      (∀ t, unfinished ((sys .fixed progs).run sched) t = false) ∧
+      (∀ τ P, progs[τ]? = some P → resultsOf ((sys .fixed progs).run sched) τ = P.map fun _ => Res.ok) ∧
+      (∃ p v, Op.writeFile p v ∈ progs.flatten ∧ absT ((sys .fixed progs).run sched).heap p = none) ∧
+      ∀ σ : List Op, σ.Perm progs.flatten → (seqRun Node.empty σ).2 ≠ σ.map fun _ => FS.Result.ok := by
+  refine ⟨[[.writeFile [[97], [98], [102]] [1]], [.remove [[97], [98]]]],
+    [0, 0, 0, 0, 0, 1, 1, 1, 1, 0, 0, 0, 0, 0, 1, 1], ?_, ?_, ⟨[[97], [98], [102]], [1], by simp, by decide⟩, ?_⟩
+  · intro t
+    match t with
+    | 0 => decide
+    | 1 => decide
+    | n + 2 => rfl
+  · intro τ P hP
+    match τ, hP with
+    | 0, h => simp at h; subst h; decide
+    | 1, h => simp at h; subst h; decide
+    | n + 2, h => simp at h
+  · intro σ hσ
+    have hlen := hσ.length_eq
+    simp only [List.flatten_cons, List.flatten_nil, List.append_nil, List.singleton_append, List.length_cons,
+      List.length_nil] at hlen hσ
+    match σ, hlen with
+    | [x, y], _ =>
+      have hx : x ∈ [Op.writeFile [[97], [98], [102]] [1], Op.remove [[97], [98]]] := hσ.subset (by simp)
+      have hy : y ∈ [Op.writeFile [[97], [98], [102]] [1], Op.remove [[97], [98]]] := hσ.subset (by simp)
+      have hnd : [x, y].Nodup := hσ.nodup_iff.2 (by simp)
+      simp only [List.mem_cons, List.not_mem_nil, or_false] at hx hy
+      rcases hx with rfl | rfl <;> rcases hy with rfl | rfl
+      · simp at hnd
+      · decide
+      · decide
+      · simp at hnd
+
+/-! ## the micro-effect form (the commutation engine of `distinct_paths_commute`) -/
+
+/-- Seen from the root every heap-mutating critical section is one micro effect on the path map
+(`ensureDir p` = locked part of `mkdir`, `graft p sub` = `addNode` / `setData` / handle close /
+`removeNodeByName` at `p`); an operation with target `p` is `ensureDir` on the proper prefixes of `p`
+followed by its effect at `p`; the effects of operations on pairwise unrelated targets give the same tree in
+every order.  (This is the former `distinct_paths_commute_partial`; the refinement of the heap to these
+effects, which it lacked, is `absT_addLeaf_dir`, `absT_addLeaf_file`, `absT_data`, `absT_remEdge` of
+`Proofs/MemFSConcShape.lean`, and `distinct_paths_commute` above is proved through it.) -/
+theorem micro_effects_commute (ops : List AOp)
     (hun : ops.Pairwise (fun a b => Unrelated a.target b.target))
     (l : List Eff1) (hl : l.Perm (ops.flatMap AOp.effects))
     (ops' : List AOp) (hp : ops'.Perm ops) (T : Tree) :
@@ -206,8 +480,8 @@ theorem distinct_paths_commute_partial (ops : List AOp)
   rw [h1, h2]
 
 -- WriteFile(a/b/x), MkdirAll(a/c), Remove(d) are pairwise unrelated; an interleaving of their effects
-example : let ops : List AOp := [⟨["a", "b", "x"], some (fun q => if q = [] then some (.file [1]) else none)⟩,
-      ⟨["a", "c"], none⟩, ⟨["d"], some (fun _ => none)⟩]
+example : let ops : List AOp := [⟨[[97], [98], [120]], some (fun q => if q = [] then some (.file [1]) else none)⟩,
+      ⟨[[97], [99]], none⟩, ⟨[[100]], some (fun _ => none)⟩]
     ops.Pairwise (fun a b => Unrelated a.target b.target) := by
   simp [Unrelated, List.isPrefixOf]
 
